@@ -61,7 +61,12 @@ impl RouterProxy {
     /// Add a new (receiver, callback) pair to the router, and send a wakeup message
     /// to the router.
     pub fn add_route(&self, receiver: OpaqueIpcReceiver, callback: RouterHandler) {
+        #[cfg(ipc_channel_verif)]
+        crate::verif::point("router.add.call", &[]);
         let comm = self.comm.lock().unwrap();
+        #[cfg(ipc_channel_verif)]
+        let _verif_scope =
+            crate::verif::Scope::enter("router.add.locked", &[("shutdown", comm.shutdown as i64)]);
 
         if comm.shutdown {
             return;
@@ -70,6 +75,8 @@ impl RouterProxy {
         comm.msg_sender
             .send(RouterMsg::AddRoute(receiver, callback))
             .unwrap();
+        #[cfg(ipc_channel_verif)]
+        crate::verif::point("router.add.msg", &[]);
         comm.wakeup_sender.send(()).unwrap();
     }
 
@@ -78,12 +85,16 @@ impl RouterProxy {
     /// Calling it is idempotent,
     /// which can be useful when running a multi-process system in single-process mode.
     pub fn shutdown(&self) {
+        #[cfg(ipc_channel_verif)]
+        let _verif_scope = crate::verif::Scope::enter("router.shutdown", &[]);
         let mut comm = self.comm.lock().unwrap();
 
         if comm.shutdown {
             return;
         }
         comm.shutdown = true;
+        #[cfg(ipc_channel_verif)]
+        crate::verif::point("router.shutdown.flag", &[]);
 
         let (ack_sender, ack_receiver) = crossbeam_channel::unbounded();
         comm.wakeup_sender
@@ -92,7 +103,11 @@ impl RouterProxy {
                 comm.msg_sender
                     .send(RouterMsg::Shutdown(ack_sender))
                     .unwrap();
+                #[cfg(ipc_channel_verif)]
+                crate::verif::point("router.shutdown.msg", &[]);
                 ack_receiver.recv().unwrap();
+                #[cfg(ipc_channel_verif)]
+                crate::verif::point("router.shutdown.acked", &[]);
             })
             .unwrap();
     }
@@ -165,6 +180,8 @@ impl Router {
     /// 2) Call appropriate handler based on message id.
     /// 3) Remove handler once channel closes.
     fn run(&mut self) {
+        #[cfg(ipc_channel_verif)]
+        let _verif_run = crate::verif::Scope::enter("router.run", &[]);
         loop {
             // Wait for events to come from our select() new channels are added to
             // our ReceiverSet below.
@@ -173,19 +190,33 @@ impl Router {
                 Err(_) => break,
             };
 
+            #[cfg(ipc_channel_verif)]
+            crate::verif::point("router.select.ret", &[("n", results.len() as i64)]);
             // Iterate over numerous events that were ready at this time.
             for result in results.into_iter() {
                 match result {
                     // Message came from the RouterProxy. Listen on our `msg_receiver`
                     // channel.
                     IpcSelectionResult::MessageReceived(id, _) if id == self.msg_wakeup_id => {
+                        #[cfg(ipc_channel_verif)]
+                        crate::verif::point("router.wake", &[]);
                         match self.msg_receiver.recv().unwrap() {
                             RouterMsg::AddRoute(receiver, handler) => {
                                 let new_receiver_id =
                                     self.ipc_receiver_set.add_opaque(receiver).unwrap();
                                 self.handlers.insert(new_receiver_id, handler);
+                                #[cfg(ipc_channel_verif)]
+                                crate::verif::point(
+                                    "router.install",
+                                    &[("id", new_receiver_id as i64)],
+                                );
                             },
                             RouterMsg::Shutdown(sender) => {
+                                #[cfg(ipc_channel_verif)]
+                                crate::verif::point(
+                                    "router.shutdown.take",
+                                    &[("handlers", self.handlers.len() as i64)],
+                                );
                                 sender
                                     .send(())
                                     .expect("Failed to send comfirmation of shutdown.");
@@ -195,9 +226,15 @@ impl Router {
                     },
                     // Event from one of our registered receivers, call callback.
                     IpcSelectionResult::MessageReceived(id, message) => {
+                        #[cfg(ipc_channel_verif)]
+                        let _verif_scope =
+                            crate::verif::Scope::enter("router.handler", &[("id", id as i64)]);
                         self.handlers.get_mut(&id).unwrap()(message)
                     },
                     IpcSelectionResult::ChannelClosed(id) => {
+                        #[cfg(ipc_channel_verif)]
+                        let _verif_scope =
+                            crate::verif::Scope::enter("router.closed", &[("id", id as i64)]);
                         let _ = self.handlers.remove(&id).unwrap();
                     },
                 }
